@@ -8,7 +8,7 @@
    iter_index t it = number of items before position it (= distance from begin).
    All statements hold for every 1 <= maxCapacity <= 255, every capacityStep, blockCount, search strategy. *)
 From Coq Require Import ZArith List.
-From C02 Require Import BTreeModel BTreeParams BTreeBase SplitSeg IndexTable BTreeSearch BTreeIter BTreeAdd BTreeRemove BTreeCtx BTreeRemove2 BTreeTrack BTreeRemove3 BTreeRange BTreeTop BTreeHist BTreeRemoveTop BTreeRangeTop BTreeHist2 BTreeMerge BTreeFast BTreeFast2 BTreeInsRange BTreeHist3 NodeOps NodeScript BTreeDecide BTreeSplitGen GenPrimsC02 Gen_TreeFacts BTreeFastDecide.
+From C02 Require Import BTreeModel BTreeParams BTreeBase SplitSeg IndexTable BTreeSearch BTreeIter BTreeAdd BTreeRemove BTreeCtx BTreeRemove2 BTreeTrack BTreeRemove3 BTreeRange BTreeTop BTreeHist BTreeRemoveTop BTreeRangeTop BTreeHist2 BTreeMerge BTreeFast BTreeFast2 BTreeInsRange BTreeHist3 NodeOps NodeScript BTreeDecide BTreeSplitGen GenPrimsC02 Gen_TreeFacts BTreeFastDecide BTreeSearchGen.
 From MomoCommon Require Import GenPrelude.
 Import ListNotations.
 Local Open Scope Z_scope.
@@ -577,13 +577,23 @@ Print Assumptions C02_model_merges_exactly_when_decision_says.
 Theorem C02_split_segments_are_generated :
   forall node n1 n2 leaf (c s cnt : nat),
     (s < cnt)%nat -> (c <= cnt)%nat -> (cnt <= 255)%nat ->
-    exists tr, Gen_Split.pvSplitNode no_segs node (Z.of_nat c) leaf (Z.of_nat cnt) (Z.of_nat s) n1 n2 = Ok (tt, tr) /\
-      segs_list tr = map (zseg node n1 n2) (hand_segs c s cnt).
+    exists tr cr, Gen_Split.pvSplitNode no_segs no_segs node (Z.of_nat c) leaf (Z.of_nat cnt) (Z.of_nat s) n1 n2 = Ok (tt, tr, cr) /\
+      segs_list tr = map (zseg node n1 n2) (hand_segs c s cnt) /\
+      creates_list cr = [((if leaf then 1 else 0)%Z, Z.of_nat (fst (hand_counts c s cnt)));
+                         ((if leaf then 1 else 0)%Z, Z.of_nat (snd (hand_counts c s cnt)))].
 Proof. exact gen_split_trace. Qed.
 Print Assumptions C02_split_segments_are_generated.
 
+(* the two CreateNode(isLeaf, count) calls of the real split ask for exactly the sizes of the hand split's two halves *)
+Theorem C02_hand_split_sizes_are_the_created_counts :
+  forall (ks : list Z) cs sub c s x, (s < length ks)%nat -> (c <= length ks)%nat ->
+    let '((ks1, _), _, (ks2, _)) := split_parts ks cs sub (length ks) c s x in
+    length ks1 = fst (hand_counts c s (length ks)) /\ length ks2 = snd (hand_counts c s (length ks)).
+Proof. exact hand_split_sizes. Qed.
+Print Assumptions C02_hand_split_sizes_are_the_created_counts.
+
 Theorem C02_split_stuck_when_split_index_out_of_range :
-  forall node n1 n2 leaf c s cnt tr0, (s >= cnt)%Z -> Gen_Split.pvSplitNode tr0 node c leaf cnt s n1 n2 = Stuck.
+  forall node n1 n2 leaf c s cnt tr0 cr0, (s >= cnt)%Z -> Gen_Split.pvSplitNode tr0 cr0 node c leaf cnt s n1 n2 = Stuck.
 Proof. exact gen_split_stuck. Qed.
 Print Assumptions C02_split_stuck_when_split_index_out_of_range.
 
@@ -639,6 +649,48 @@ Theorem C02_rebalance_collapse_never_reads_a_destroyed_node :
     match climb_reads with EParent e => ~ In (evalp ptr child0 parent s' e) (c_dead ptr s') | _ => False end.
 Proof. exact collapse_iteration_safe. Qed.
 Print Assumptions C02_rebalance_collapse_never_reads_a_destroyed_node.
+
+(* ===== growth round 4: the search inside a node (generated) and the stop rule of pvRebalance's climbing loop (AST fact) ===== *)
+
+(* the REAL TreeSet::pvFindFirst(Node*, itemPred) - linear scan guarded by the last item, or binary search - is the hand model's search *)
+Theorem C02_node_search_is_generated :
+  forall (linear : bool) (P : Z -> bool) (ks : list Z), (length ks <= 255)%nat ->
+    Gen_FindFirst.pvFindFirst_node linear (Z.of_nat (length ks)) (ipred P ks) = Ok (Z.of_nat (search linear P ks)).
+Proof. exact gen_find_first_is_search. Qed.
+Print Assumptions C02_node_search_is_generated.
+
+Theorem C02_generated_node_search_is_first_true :
+  forall (linear : bool) (P : Z -> bool) (ks : list Z), (length ks <= 255)%nat -> mono P ks ->
+    Gen_FindFirst.pvFindFirst_node linear (Z.of_nat (length ks)) (ipred P ks) = Ok (Z.of_nat (first_true P ks)).
+Proof. exact gen_find_first_is_first_true. Qed.
+Print Assumptions C02_generated_node_search_is_first_true.
+
+(* the heart of the sorted-sequence lookups: on a sorted node the real search with GetLowerBound's predicate !(item < key) returns the
+   first position whose item is not less than the key; with GetUpperBound's predicate key < item the first greater one *)
+Theorem C02_generated_lower_bound_in_node :
+  forall (linear : bool) (ks : list Z) (k : Z), (length ks <= 255)%nat -> Sorted.StronglySorted Z.le ks ->
+    exists i, Gen_FindFirst.pvFindFirst_node linear (Z.of_nat (length ks)) (ipred (fun x => negb (x <? k)%Z) ks) = Ok (Z.of_nat i) /\
+      (i <= length ks)%nat /\ (forall j, (j < i)%nat -> (nth j ks 0 < k)%Z) /\ (forall j, (i <= j < length ks)%nat -> (k <= nth j ks 0)%Z).
+Proof. exact gen_lower_bound_in_node. Qed.
+Print Assumptions C02_generated_lower_bound_in_node.
+
+Theorem C02_generated_upper_bound_in_node :
+  forall (linear : bool) (ks : list Z) (k : Z), (length ks <= 255)%nat -> Sorted.StronglySorted Z.le ks ->
+    exists i, Gen_FindFirst.pvFindFirst_node linear (Z.of_nat (length ks)) (ipred (fun x => (k <? x)%Z) ks) = Ok (Z.of_nat i) /\
+      (i <= length ks)%nat /\ (forall j, (j < i)%nat -> (nth j ks 0 <= k)%Z) /\ (forall j, (i <= j < length ks)%nat -> (k < nth j ks 0)%Z).
+Proof. exact gen_upper_bound_in_node. Qed.
+Print Assumptions C02_generated_upper_bound_in_node.
+
+(* one iteration of the real climbing loop of pvRebalance(node, savedNode, fast) - its stop rule read off the AST, evaluated left to
+   right with short-circuit, each pvRebalance(parentNode, index + k, savedNode) call being the hand model's try_merge - is one step of
+   the hand model's reb_loop *)
+Theorem C02_rebalance_climb_iteration_is_generated :
+  forall index rpp r sp fast,
+    reb_loop (index :: rpp) r sp fast =
+    let '(stop, (r', sp')) := evalb (rev rpp) index fast climb_stop (r, sp) in
+    if stop then (r', sp') else reb_loop rpp r' sp' fast.
+Proof. exact climb_iteration_is_model. Qed.
+Print Assumptions C02_rebalance_climb_iteration_is_generated.
 
 (* non-vacuity: a concrete reachable state (maxCapacity 2, ten insertions with duplicates) has height 2 *)
 Theorem C02_nonvacuous_example :
